@@ -83,7 +83,7 @@ void h_lexer_include(void)
 		      "an included name is resolved like a top-level file name: through the search path when there is one, else by tilde expansion");
 		if (!in_resolved || !in_fopen_ok) {
 			CHECK("C13,C06", rc == CFG_PARSE_ERROR && g_diag >= 1, "a missing or unreadable include target is a reported parse error");
-			CHECK("C13,C08", cfg_include_stack_ptr == in_stackptr && h_cfg.filename == oldname && h_cfg.line == oldline && g_buf_pushes == 0, "a failed include costs no include capacity and leaves file name and line alone");
+			CHECK("C13,C08,C06", cfg_include_stack_ptr == in_stackptr && h_cfg.filename == oldname && h_cfg.line == oldline && g_buf_pushes == 0, "a failed include costs no include capacity and leaves file name and line alone");
 			CHECK("C07", !g_file_open[2], "a failed include leaves no file open");
 		} else if (in_is_directory) {
 			KFCHECK("C13-include-directory-not-refused", "C13,C02", rc == CFG_PARSE_ERROR && g_diag >= 1, "an include target that is a directory is a reported parse error");
